@@ -234,12 +234,29 @@ def save_replay(prop, case_path_or_lines, header):
         body = open(case_path_or_lines).read()
     else:
         body = "\n".join(case_path_or_lines) + "\n"
+    meta = header.pop("meta", None)
     head = "".join(f"# {k}: {v}\n" for k, v in header.items())
+    if meta is not None:
+        head += "# meta: " + json.dumps(meta, default=str) + "\n"
     sha = hashlib.sha256((head + body).encode()).hexdigest()[:12]
     p = os.path.join(d, sha + ".case")
     with open(p, "w") as f:
         f.write(head + body)
     return p
+
+def load_case(path):
+    """-> (lines without header comments, meta dict from a '# meta: {...}' header line)"""
+    lines, meta = [], {}
+    for l in open(path):
+        l = l.rstrip("\n")
+        if l.startswith("# meta: "):
+            try: meta = json.loads(l[8:])
+            except ValueError: pass
+        elif l.startswith("# "):
+            continue
+        else:
+            lines.append(l)
+    return lines, meta
 
 def known_findings(prop):
     p = os.path.join(VERIF, "known_findings.json")
